@@ -615,4 +615,7 @@ def d6(ctx, rep):
                                 rep.undecided('D6.rank', target, q, f'rank of {short(lim)} not derivable', construct=f'quad limit {short(lim)}')
                 for s_ in getattr(rk, 'sinks', []):
                     rep.bad('D6.rank', target, s_[0], f'{s_[3]} of rank {s_[2]}')
-    rep.floor('D6.rank', 'integration limits under a vector-calling optimiser', n, 1)
+    if n == 0:
+        frank = prog.cls('copulas.bivariate.frank.Frank')
+        rep.undecided('D6.rank', frank.lookup('compute_theta'), 'Frank.compute_theta', 'no integration limit under a vector-calling optimiser found in the Frank calibration',
+                      construct='quad limits')
